@@ -516,11 +516,58 @@ pub fn run_family(grammars: &[Grammar], args: &[String], run: bool) -> BOutcome 
                     }],
                     vec![],
                 ),
-                Err(_) => {
-                    // bisect: compile every member alone to name the culprit(s)
+                Err(first_err) => {
+                    // name the culprits from rustc's error locations (`--> .../gNNNNNN.rs:line`), rebuild the
+                    // batch without them; fall back to compiling every member alone
+                    let mut bad: Vec<(usize, String)> = vec![];
+                    let mut rest: Vec<usize> = members.to_vec();
+                    let mut err = first_err;
                     let mut ok = vec![];
-                    let mut bad = vec![];
-                    for (k, i) in members.iter().enumerate() {
+                    for round in 0..4 {
+                        let mut culprits: Vec<usize> = vec![];
+                        for line in err.lines() {
+                            if let Some(pos) = line.find("--> ") {
+                                let path = &line[pos + 4..];
+                                if let Some(g) = path.rfind("/g") {
+                                    let digits: String = path[g + 2..].chars().take_while(|c| c.is_ascii_digit()).collect();
+                                    if let Ok(id) = digits.parse::<usize>() {
+                                        if rest.contains(&id) && !culprits.contains(&id) {
+                                            culprits.push(id);
+                                        }
+                                    }
+                                }
+                            }
+                        }
+                        if culprits.is_empty() {
+                            break;
+                        }
+                        for c in &culprits {
+                            let msg: String = err
+                                .split("\nerror")
+                                .filter(|chunk| chunk.contains(&format!("/g{c:06}.rs")))
+                                .map(|chunk| format!("error{chunk}"))
+                                .collect::<Vec<_>>()
+                                .join("\n");
+                            bad.push((*c, msg));
+                        }
+                        rest.retain(|i| !culprits.contains(i));
+                        if rest.is_empty() {
+                            break;
+                        }
+                        let refs: Vec<&Generated> = rest.iter().map(|i| &gens[*i]).collect();
+                        match build_batch(&refs, &rest, &paths, &scratch, 2_000_000 + tag * 10 + round) {
+                            Ok(bin) => {
+                                ok.push(Built {
+                                    members: rest.clone(),
+                                    bin,
+                                });
+                                rest.clear();
+                                break;
+                            }
+                            Err(e) => err = e,
+                        }
+                    }
+                    for (k, i) in rest.iter().enumerate() {
                         match build_batch(&[&gens[*i]], &[*i], &paths, &scratch, 1_000_000 + tag * BATCH_SIZE + k) {
                             Ok(bin) => ok.push(Built {
                                 members: vec![*i],
